@@ -199,3 +199,53 @@ func ruleEnumDomain(c *Ctx) []Obligation {
 	}
 	return obs
 }
+
+func init() {
+	register(&Rule{Name: "FIND.LAZY", Props: []string{"C17", "C07"}, Floor: 1,
+		Doc: "where the path lookup creates an rpc's missing input/output on demand it does so only when the slot is empty, never over an existing subtree",
+		Run: ruleFindLazy})
+}
+
+func ruleFindLazy(c *Ctx) []Obligation {
+	const R = "FIND.LAZY"
+	fn := c.Fn("yang.(*Entry).Find")
+	if fn == nil {
+		return []Obligation{undecided(R, "path lookup", "-", "(*Entry).Find not found")}
+	}
+	m := c.entryModel()
+	var obs []Obligation
+	n := 0
+	for _, f := range []*types.Var{m.fIn, m.fOut} {
+		for _, st := range c.storesToFieldDeep(fn, f) {
+			n++
+			con := fmt.Sprintf("Find: store #%d to RPCEntry.%s happens only into an empty slot", n, recordedFieldName(f))
+			path := AccessPath(st.Addr)
+			guarded := false
+			for _, g := range guardsAt(st.Block()) {
+				x, isEq, okn := nilTest(g.Cond)
+				if !okn || isEq != g.Branch {
+					continue
+				}
+				if _, gf, _ := loadedField(x); gf == f && AccessPath(x) == path {
+					guarded = true
+				}
+			}
+			if guarded {
+				obs = append(obs, ok(R, con, c.InstrPos(st), "under `slot == nil`"))
+			} else {
+				obs = append(obs, bad(R, con, c.InstrPos(st), "the lookup overwrites the rpc's "+recordedFieldName(f)+" subtree without knowing the slot is empty: an existing input/output with all its children is replaced by an empty one, and the path that names a node inside it no longer finds it"))
+			}
+		}
+	}
+	if n == 0 {
+		o := ok(R, "Find: no on-demand creation of rpc input/output", c.Pos(fn.Pos()), "the lookup does not write the slots")
+		o.Trivial = true
+		obs = append(obs, o)
+	}
+	return obs
+}
+
+func isBoolType(t types.Type) bool {
+	b, ok := t.Underlying().(*types.Basic)
+	return ok && b.Kind() == types.Bool
+}
